@@ -2,7 +2,7 @@
    framing decision gives Transfer-Encoding precedence over any Content-Length. *)
 From Coq Require Import String.
 From Coq Require Import List Strings.Byte NArith ZArith Bool Arith Lia.
-Require Import Bytes Show Res Tables Chunk TrailerKeys Range RangeProofs DecProofs HeaderScan HeaderScanProofs ReqHead ReqHeadProofs RespHead.
+Require Import Bytes Show Res Tables Chunk TrailerKeys Range RangeProofs DecProofs HeaderScan HeaderScanProofs ReqHead ReqHeadProofs RespFrame RespHead.
 Import ListNotations.
 Local Open Scope nat_scope.
 
@@ -108,4 +108,46 @@ Proof.
   intros n H. unfold rframe_of. cbn [fold_left]. unfold rframe_step.
   replace (ci_compare bytestr_StrContentLength bytestr_StrContentLength) with true by reflexivity.
   cbn [bytestr_StrContentLength]. rewrite parse_uint_show by exact H. reflexivity.
+Qed.
+
+(* ---------------- connection persistence ---------------- *)
+Definition no_keep_alive (fs : list (bs * bs)) : Prop :=
+  forall stored, snd (rconn_of fs) = Some stored -> has_value stored bytestr_StrKeepAlive = false.
+
+Lemma has_value_nil x : has_value [] x = false.
+Proof. reflexivity. Qed.
+
+(* a body delimited by the end of the connection: the connection is never kept *)
+Theorem resp_close_until_close : forall h11 status fs, must_skip_content_length status = false ->
+  no_keep_alive fs -> resp_close h11 status (-2)%Z fs = true.
+Proof.
+  intros h11 status fs Hs Hk. unfold resp_close, no_keep_alive in *.
+  destruct (rconn_of fs) as [cl first]. cbn [snd] in Hk.
+  assert (K : has_value (match first with Some v => v | None => [] end) bytestr_StrKeepAlive = false).
+  { destruct first as [v|]; [apply Hk; reflexivity|apply has_value_nil]. }
+  rewrite K, Hs. destruct cl, h11; reflexivity.
+Qed.
+
+(* HTTP/1.0 (or any other version text) without a keep-alive token: closed, whatever the framing *)
+Theorem resp_close_http10 : forall status clen fs, no_keep_alive fs -> resp_close false status clen fs = true.
+Proof.
+  intros status clen fs Hk. unfold resp_close, no_keep_alive in *.
+  destruct (rconn_of fs) as [cl first]. cbn [snd] in Hk.
+  assert (K : has_value (match first with Some v => v | None => [] end) bytestr_StrKeepAlive = false).
+  { destruct first as [v|]; [apply Hk; reflexivity|apply has_value_nil]. }
+  rewrite K. destruct cl; cbn [negb andb];
+    destruct ((clen =? -2)%Z && true && negb (must_skip_content_length status)); reflexivity.
+Qed.
+
+(* a final "Connection: close" (any letter case of the name) closes, whatever came before *)
+Theorem resp_close_last_field : forall h11 status clen fs name,
+  name <> [] -> ci_compare name bytestr_StrConnection = true ->
+  resp_close h11 status clen (fs ++ [(name, bytestr_StrClose)]) = true.
+Proof.
+  intros h11 status clen fs name Hn Hc. unfold resp_close, rconn_of. rewrite fold_left_app. cbn [fold_left].
+  match goal with |- context[rconn_step ?st _] => destruct st as [cl first] end.
+  assert (E : rconn_step (cl, first) (name, bytestr_StrClose) = (true, first)).
+  { unfold rconn_step. destruct name as [|c name']; [congruence|]. rewrite Hc. reflexivity. }
+  rewrite E. cbv beta iota zeta. cbn [negb andb].
+  destruct ((clen =? -2)%Z && true && negb (must_skip_content_length status)); destruct h11; reflexivity.
 Qed.
